@@ -3,11 +3,13 @@ profile, panic=abort)."""
 import concurrent.futures
 import itertools
 import json
+import shutil
 
 import gen
 import mockca
 import tacdrun
 import vlib
+from ext import auditd_c17, auditd_tacd
 
 FINISH = dict(
     level="proof",
@@ -23,36 +25,43 @@ FINISH = dict(
          "then abandon, 50 concurrent stalled connections} is played against one freshly started release "
          "tacd, followed by a valid acme-tls/1 handshake; Spec.C17.holds judges process status and final "
          "handshake; the model instance (Gen/Profile) predicts survival. Enumeration is exhaustive for the "
-         "stated length; non-trivial = history non-empty.",
+         "stated length; non-trivial = history non-empty. "
+         "Beyond the catalogue (ext/auditd_c17.py): the same histories (length <= 2) against the unix-socket "
+         "listener; volume (300 failed connections of one kind, 300 valid ones, a burst of 1100 idle connections); "
+         "ClientHello / ALPN shapes (a single short offer, a 255-byte name, 50 names, near misses of acme-tls/1, "
+         "malformed extension bodies, no SNI, a 253-byte SNI, TLS 1.0/1.1 only, a client that rejects the "
+         "certificate); hostile clients that keep coming while the valid client is served (storm), a slow "
+         "ClientHello, ClientHello then silence, a half-closed connection, completed validations kept open; valid "
+         "validations in the MIDDLE of a history (each must be answered correctly). The final valid handshake "
+         "gets ONE try (15 s) unless the history leaves connections open or still coming (then up to 3).",
 )
 
 EXT = "1.3.6.1.5.5.7.1.31=critical,DER:04:20:" + ":".join("%02x" % ((7 * i + 3) % 256) for i in range(32))
 DIGEST_HEX = "".join("%02x" % ((7 * i + 3) % 256) for i in range(32))
 
 
-def one(history, binary):
+def one(history, binary, listener="tcp"):
     t = tacdrun.Tacd(binary, "validation.example.org", EXT,
+                     listen=auditd_c17.unix_listen() if listener == "unix" else None,
                      nofile=tacdrun.NOFILE_FOR_EXHAUSTION if "fd-exhaustion" in history else None)
     held = []
-    res = {"history": list(history)}
+    res = {"history": list(history), "listener": listener}
+    mid = []
     try:
-        if not t.wait_listening():
-            rc, err = t.stop()
-            res.update({"started": False, "rc": rc, "stderr": err[-400:]})
+        if not auditd_tacd.wait_own(t):
+            res["started"] = False     # (rc and stderr are taken below: a second stop() would find the log closed)
             return res
         res["started"] = True
         for k in history:
-            tacdrun.behave(t.listen, k, held)
+            mid += auditd_tacd.behave(t.listen, k, held).get("valid_fail", [])
         # the valid validation that must still be served (a few tries: the accept backlog may be
         # busy with the stalled connections, which is slowness, not refusal)
         final = None
-        for _ in range(3):
-            final = tacdrun.handshake(t.listen, [tacdrun.ACME_ALPN], timeout=5.0)
-            if final.get("ok"):
-                break
+        final = auditd_c17.final_handshake(t.listen, history)
         res["alive"] = t.alive()
-        res["final_ok"] = bool(final.get("ok")) and final.get("alpn") == tacdrun.ACME_ALPN
-        res["final_error"] = final.get("error")
+        # a valid validation in the middle of the history is a "subsequent valid handshake" too
+        res["final_ok"] = bool(final.get("ok")) and final.get("alpn") == tacdrun.ACME_ALPN and not mid
+        res["final_error"] = final.get("error") or (mid and "valid handshake inside the history: %s" % mid[0]) or None
         res["cert_pem"] = final.get("cert_pem")
     finally:
         for s in held:
@@ -83,8 +92,11 @@ def run(ctx):
     # a failing accept() (descriptor exhaustion), alone and around other behaviours
     histories += [("fd-exhaustion",), ("fd-exhaustion", "fd-exhaustion"), ("garbage", "fd-exhaustion"),
                   ("fd-exhaustion", "tls-foreign-alpn"), ("connect-reset-burst", "fd-exhaustion")]
+    jobs = [(h, "tcp") for h in histories] + auditd_c17.jobs(ctx, histories)
     with concurrent.futures.ThreadPoolExecutor(max_workers=12) as ex:
-        results = list(ex.map(lambda h: one(h, binary), histories))
+        results = list(ex.map(lambda j: auditd_tacd.port_retry(lambda: one(j[0], binary, j[1]),
+                                                               lambda r: r.get("stderr_tail")), jobs))
+    shutil.rmtree(auditd_c17.scratch_dir(), ignore_errors=True)
     helper = mockca.Helper()
     jin = []
     for r in results:
@@ -101,11 +113,13 @@ def run(ctx):
     helper.close()
     verdicts = vlib.model(jin)
     for r, v in zip(results, verdicts):
-        ctx.case({"history": r["history"]}, nontrivial=len(r["history"]) > 0)
+        ctx.case({"history": r["history"], "listener": r["listener"]}, nontrivial=len(r["history"]) > 0)
         ctx.count("len:%d" % len(r["history"]))
+        ctx.count("listener:" + r["listener"])
+        ctx.count("final-tries:%s" % ("up-to-3" if auditd_c17.may_wait(r["history"]) else "one"))
         for k in r["history"]:
             ctx.count("behaviour:" + k)
-        robj = {k: r.get(k) for k in ("history", "started", "alive", "final_ok", "final_cert_ok", "final_error",
+        robj = {k: r.get(k) for k in ("history", "listener", "started", "alive", "final_ok", "final_cert_ok", "final_error",
                                       "rc", "stderr_tail")}
         if not r.get("started"):
             ctx.broke("harness", "tacd did not start listening", robj)
@@ -131,6 +145,7 @@ def replay(ctx):
         r = json.load(f)
     obj = r.get("replay", r)
     binary = vlib.build_tacd(release=True)
-    res = one(tuple(obj["history"]), binary)
+    res = one(tuple(obj["history"]), binary, obj.get("listener", "tcp"))
+    shutil.rmtree(auditd_c17.scratch_dir(), ignore_errors=True)
     print({k: res.get(k) for k in ("history", "started", "alive", "final_ok", "final_error", "rc")})
     return 0 if res.get("alive") and res.get("final_ok") else 1
